@@ -350,6 +350,7 @@ type Origin struct {
 	dials     []DialEv
 	dialFail  map[string]bool          // host -> refuse
 	drop      map[string]bool          // xid -> close without answering
+	refuse    map[string]bool          // xid -> as downstream proxy, answer the CONNECT with 403 and hang up
 	plain     map[string]bool          // host -> answer a TLS ClientHello with plain bytes and close
 	delay     map[string]time.Duration // xid -> wait at least this long before answering
 	plainHits int64
@@ -361,13 +362,21 @@ type Origin struct {
 
 // NewOrigin creates an origin.
 func NewOrigin(ca *CA) *Origin {
-	return &Origin{ca: ca, dialFail: map[string]bool{}, drop: map[string]bool{}, plain: map[string]bool{}, delay: map[string]time.Duration{}, conns: map[string][]*vh.PipeConn{}}
+	return &Origin{ca: ca, dialFail: map[string]bool{}, drop: map[string]bool{}, refuse: map[string]bool{}, plain: map[string]bool{}, delay: map[string]time.Duration{}, conns: map[string][]*vh.PipeConn{}}
 }
 
 // SetDialFail makes dials to host (no port) fail.
 func (o *Origin) SetDialFail(host string) {
 	o.mu.Lock()
 	o.dialFail[host] = true
+	o.mu.Unlock()
+}
+
+// SetRefuse makes the origin, playing the downstream proxy, refuse the
+// CONNECT of xid: 403, no tunnel, connection closed.
+func (o *Origin) SetRefuse(xid string) {
+	o.mu.Lock()
+	o.refuse[xid] = true
 	o.mu.Unlock()
 }
 
@@ -475,7 +484,13 @@ func (o *Origin) serve(c *vh.PipeConn, addr string) {
 			o.mu.Lock()
 			o.arrivals = append(o.arrivals, a)
 			o.conns["x:"+xid] = append(o.conns["x:"+xid], c)
+			refuse := o.refuse[xid]
 			o.mu.Unlock()
+			if refuse {
+				// a downstream proxy that does not grant the tunnel
+				io.WriteString(rw, "HTTP/1.1 403 Forbidden\r\nContent-Length: 0\r\nX-Downstream-Refused: "+xid+"\r\n\r\n")
+				return
+			}
 			if _, err := io.WriteString(rw, "HTTP/1.1 200 Connection established\r\n\r\n"); err != nil {
 				return
 			}
